@@ -5,6 +5,7 @@ mod gen;
 mod histrec;
 mod ops;
 mod project;
+mod structural;
 mod world;
 mod xlsxfaults;
 
@@ -65,6 +66,7 @@ fn main() {
         "numformat" => cases::numformat(&gets(&m, "in", ""), &gets(&m, "out", "/tmp/icverif")),
         "formula" => formula::run(&gets(&m, "in", ""), &gets(&m, "out", "/tmp/icverif"), getb(&m, "thorough"), geti(&m, "seed", 1) as u64),
         "colattrs" => behreplay::replay_colattrs(&gets(&m, "in", ""), &gets(&m, "out", "/tmp/icverif")),
+        "structural" => structural::replay(&gets(&m, "in", ""), &gets(&m, "out", "/tmp/icverif")),
         "styles" => behreplay::replay_styles(&gets(&m, "in", ""), &gets(&m, "out", "/tmp/icverif")),
         "tokens" => cases::tokens(&gets(&m, "in", ""), &gets(&m, "out", "/tmp/icverif"), getb(&m, "thorough"), geti(&m, "skip", 0) as usize),
         "finite" => cases::finite(&gets(&m, "in", ""), &gets(&m, "out", "/tmp/icverif"), getb(&m, "thorough"), geti(&m, "skip", 0) as usize),
